@@ -18,6 +18,7 @@ pub struct State {
   wg: VWaitGroup,
   lb: Arc<VLoadBalancer>,
   tasks: HashMap<String, Task>,
+  partial: HashMap<String, Arc<std::sync::Mutex<Vec<String>>>>,
 }
 
 impl Default for State {
@@ -28,6 +29,7 @@ impl Default for State {
       wg: VWaitGroup::new(),
       lb: Arc::new(VLoadBalancer::new()),
       tasks: HashMap::new(),
+      partial: HashMap::new(),
     }
   }
 }
@@ -158,6 +160,8 @@ pub fn run_op(st: &mut State, p: &[&str]) -> String {
           // `<op;op;..>` with op = send:<pipe>:<item> | trysend:<pipe>:<item> | batch:<pipe>:<i,i> | pop | trypop
           let ops: Vec<String> = p[3].split(';').map(|x| x.to_string()).collect();
           let senders = st.senders.clone();
+          let shared = Arc::new(std::sync::Mutex::new(Vec::<String>::new()));
+          st.partial.insert(tid.clone(), shared.clone());
           Box::new(move || {
             Box::pin(async move {
               let mut results = Vec::new();
@@ -195,6 +199,7 @@ pub fn run_op(st: &mut State, p: &[&str]) -> String {
                   },
                   _ => "bad-op".into(),
                 };
+                shared.lock().unwrap().push(r.clone());
                 results.push(r);
               }
               results.join(";")
@@ -220,6 +225,10 @@ pub fn run_op(st: &mut State, p: &[&str]) -> String {
     "cancel" => match st.tasks.get_mut(p[1]) {
       Some(t) => show(&t.cancel()),
       None => "no-task".into(),
+    },
+    "res" => match st.partial.get(p[1]) {
+      Some(v) => format!("[{}]", v.lock().unwrap().join(";")),
+      None => "[]".into(),
     },
     "obs" => {
       let mut v = Vec::new();
